@@ -412,3 +412,134 @@ def native_agrees(call, nat):
         return call["cpp"] <= 0
     ran = [x for x in nat.split(";") if x]
     return len(ran) == 1 and call["cpp"] == int(ran[0].split("(")[0].split(".")[1])
+
+
+# ---- object histories (PyObjects) -----------------------------------------------------------------------
+NODE_H = r'''
+#include <string>
+class Probe {
+PUBLISHED:
+  static std::string take_log();
+  static std::string take_dlog();
+  static int made();
+  static int died();
+  static void reset();
+};
+class Node {
+PUBLISHED:
+  Node();
+  Node(const Node &copy);
+  ~Node();
+  Node make() const;
+  Node *child();
+  const Node &cchild() const;
+  Node &me();
+  static Node *global_ptr();
+  void look(const Node *other);
+  void touch();
+  int peek() const;
+  int get_id() const;
+  int get_touched() const;
+public:
+  explicit Node(int is_static);
+  int _id;
+  int _touched;
+  bool _counted;
+  mutable Node *_child;
+};
+'''
+NODE_CXX = r'''
+static std::string the_log, the_dlog;
+static int n_made = 0, n_died = 0, next_id = 1;
+std::string Probe::take_log() { std::string r = the_log; the_log.clear(); return r; }
+std::string Probe::take_dlog() { std::string r = the_dlog; the_dlog.clear(); return r; }
+int Probe::made() { return n_made; }
+int Probe::died() { return n_died; }
+Node::Node() : _id(next_id++), _touched(0), _counted(true), _child(nullptr) { ++n_made; }
+Node::Node(int) : _id(next_id++), _touched(0), _counted(false), _child(nullptr) {}
+Node::Node(const Node &copy) : _id(next_id++), _touched(0), _counted(true), _child(nullptr) { ++n_made; }
+Node::~Node() { if (_counted) { ++n_died; the_dlog += std::to_string(_id) + ","; } delete _child; _child = nullptr; }
+Node Node::make() const { return Node(*this); }
+Node *Node::child() { if (!_child) _child = new Node(); return _child; }
+const Node &Node::cchild() const { if (!_child) _child = new Node(); return *_child; }
+Node &Node::me() { return *this; }
+Node *Node::global_ptr() { static Node g(1); return &g; }
+void Probe::reset() { Node *g = Node::global_ptr(); g->_touched = 0; delete g->_child; g->_child = nullptr; the_log.clear(); the_dlog.clear(); }
+void Node::look(const Node *other) { the_log += "look " + std::to_string(other->_id) + ";"; }
+void Node::touch() { ++_touched; }
+int Node::peek() const { return _touched; }
+int Node::get_id() const { return _id; }
+int Node::get_touched() const { return _touched; }
+'''
+
+
+def build_objects_module(work, name, asan=False):
+    os.makedirs(work, exist_ok=True)
+    open(os.path.join(work, "pub.h"), "w").write(pymod.PUBLISH_PRELUDE)
+    open(os.path.join(work, name + ".h"), "w").write('#pragma once\n#include "pub.h"\n' + NODE_H)
+    open(os.path.join(work, name + "_impl.cxx"), "w").write('#include "%s.h"\n' % name + NODE_CXX)
+    return pymod.build_module(work, name, [name + ".h"], [name + "_impl.cxx"], asan=asan, jobs=3)
+
+
+def history_script(name, hists):
+    out = []
+    for hid, h in hists:
+        steps = []
+        for s in h["steps"]:
+            op = s["op"]
+            if op in ("PyConstruct", "ReturnStatic"):
+                steps.append([op, "w%d" % s["w"]])
+            elif op in ("ReturnByValue", "ReturnBorrowed", "ReturnConstRef", "ReturnThis", "PassToCpp"):
+                steps.append([op, "w%d" % s["w"], "w%d" % s["src"]])
+            else:
+                steps.append([op, "w%d" % s["w"]])
+        out.append(dict(id=hid, steps=steps))
+    return dict(module=name, mode="objects", histories=out)
+
+
+def judge_history(h, o):
+    """compare the observations of one history with the state the spec carries after every step"""
+    bad = []
+    ident = {}        # spec instance index -> observed id
+    for n, (s, ob) in enumerate(zip(h["steps"], o["obs"])):
+        want_exc = s["exc"] or None
+        if ob["exc"] != want_exc:
+            bad.append("step %d %s: exception %s, expected %s" % (n + 1, s["op"], ob["exc"], want_exc))
+        if ob["made"] != s["made"] or ob["died"] != s["died"]:
+            bad.append("step %d %s: constructed/destroyed %d/%d, expected %d/%d" % (n + 1, s["op"], ob["made"], ob["died"], s["made"], s["died"]))
+        want_w = {"w%d" % (i + 1): w for i, w in enumerate(s["wr"]) if w["ptr"] != 0}
+        if set(want_w) != set(ob["w"]):
+            bad.append("step %d %s: live wrappers %s, expected %s" % (n + 1, s["op"], sorted(ob["w"]), sorted(want_w)))
+            continue
+        for k, w in want_w.items():
+            own, const, oid, touched = ob["w"][k]
+            if own != w["mem"] or const != w["const"]:
+                bad.append("step %d %s: %s has this_ownership=%s this_const=%s, expected %s/%s" % (
+                    n + 1, s["op"], k, own, const, w["mem"], w["const"]))
+            if ident.setdefault(w["ptr"], oid) != oid:
+                bad.append("step %d %s: %s wraps instance id %d, expected the instance with id %d" % (n + 1, s["op"], k, oid, ident[w["ptr"]]))
+            if touched != s["touched"][w["ptr"] - 1]:
+                bad.append("step %d %s: instance of %s was modified %d times, expected %d" % (n + 1, s["op"], k, touched, s["touched"][w["ptr"] - 1]))
+        if len(set(ident.values())) != len(ident):
+            bad.append("step %d %s: two instances of the history share one C++ object %s" % (n + 1, s["op"], ident))
+    dl = [x for x in o["dlog"].split(",") if x]
+    if len(dl) != len(set(dl)):
+        bad.append("an instance was destroyed twice: %s" % dl)
+    return bad
+
+
+def objects_batch(args):
+    work, name, hists, asan = args
+    res = dict(name=name)
+    try:
+        build_objects_module(os.path.join(work, name), name, asan=asan)
+    except pymod.PymodError as e:
+        res["build_error"] = (e.stage, e.detail[-3000:])
+        return res
+    wd = os.path.join(work, name)
+    json.dump(history_script(name, hists), open(os.path.join(wd, "script.json"), "w"))
+    recs, rc, err = run_driver(wd, os.path.join(wd, "script.json"), os.path.join(wd, "out.ndjson"), asan=asan)
+    res.update(rc=rc, stderr=err, obs={r["h"]: r for r in recs if "h" in r},
+               last_at=next((r["at"] for r in reversed(recs) if "at" in r), None),
+               finished=any("done" in r for r in recs))
+    return res
